@@ -106,3 +106,33 @@ def sample_indices(n, k, seed):
     if n <= k:
         return list(range(n))
     return sorted(rnd.sample(range(n), k))
+
+
+def explore_configs(configs, make_harness, split_depth=4, nproc=None,
+                    max_paths=400000, max_depth=600):
+    """Explore make_harness(cfg) for every cfg, splitting each path tree into
+    root prefixes and spreading (cfg, root) pairs over the pool.
+
+    Returns {cfg_index: (results, Stats)}.
+    """
+    configs = list(configs)
+
+    def roots_of(i):
+        return i, split_roots(make_harness(configs[i]), split_depth,
+                              max_depth=max_depth)
+    root_lists = pmap(roots_of, range(len(configs)), nproc)
+    tasks = [(i, r) for i, roots in root_lists for r in roots]
+
+    def run(task):
+        i, root = task
+        results, st = explore(make_harness(configs[i]), max_paths=max_paths,
+                              max_depth=max_depth, roots=[root])
+        return i, results, st.as_dict()
+    outs = pmap(run, tasks, nproc)
+    acc = {i: ([], Stats()) for i in range(len(configs))}
+    for i, results, d in outs:
+        acc[i][0].extend(results)
+        s = Stats()
+        s.__dict__.update(d)
+        acc[i][1].add(s)
+    return acc
